@@ -4,7 +4,7 @@ CONSTANTS
   NDocs = 1
   NNames = 1
   NStrs = 1
-  MaxData = 2
+  MaxData = 1
   MaxOps = 1
   MaxKids = 4
   NIt = 0
@@ -12,8 +12,8 @@ CONSTANTS
   NLs = 0
   NWk = 0
   MaxViewOps = 3
-  MaxPost = 1
-  BuildKinds = {"elem", "text", "frag"}
+  MaxPost = 0
+  BuildKinds = {"elem", "text"}
   GModes = {"all"}
   GListNames = {"a", "*"}
   GKinds = {"rg"}
